@@ -32,7 +32,11 @@ impl CssString {
                             }
                             Some(&c) => {
                                 if let Some(digit) = c.to_digit(16) {
-                                    val = val * 10 + digit;
+                                    // Hexadecimal; saturate rather than
+                                    // overflow on too many digits.
+                                    val = val
+                                        .saturating_mul(16)
+                                        .saturating_add(digit);
                                     got_num = true;
                                     iter.next();
                                 } else if !got_num {
